@@ -159,7 +159,7 @@ def search (M : Model) (th : Thm) (budget seed maxCost : Nat) : Verdict :=
 /-! ### standard valuations of the base logic (added for C01 with base-logic axioms)
 
 `searchStd` looks for a counter-model among the valuations that interpret the base-logic
-constants (`true false neg conj disj exists exists1 IF Some The`, at instances of their declared
+constants (`true false neg conj disj exists exists1 IF Some The _VAR`, at instances of their declared
 types) by their standard codes (`stdConst`; `Some`/`The` = least witness, else 0): those atoms
 are fixed, all other atoms are enumerated or sampled exactly as in `search`.  The same names at
 other types are ordinary atoms. -/
@@ -180,6 +180,7 @@ def stdAtoms (th : Thm) : List Atom :=
 def stdCarrier (n : String) (T : Ty) : Option Ty :=
   match n, T with
   | "IF", .con "fun" [_, .con "fun" [a, _]] => some a
+  | "_VAR", .con "fun" [a, _] => some a
   | _, .con "fun" [.con "fun" [a, _], _] => some a
   | _, _ => none
 
@@ -191,6 +192,7 @@ def stdCost (M : Model) (cap : Nat) (a : Atom) : Nat :=
     let n := sizeC M cap c
     if n > cap then cap + 1
     else if a.2.1 == "IF" then 2 * n * n
+    else if a.2.1 == "_VAR" then n
     else if n ≥ 32 then cap + 1
     else 2 ^ n * (n + 1) * (if a.2.1 == "exists1" then n + 1 else 1)
 
